@@ -269,8 +269,10 @@ def _compare(env: core.Env, sql: str, kind: str, types: list | None = None) -> b
     """Run on both sides and compare.  Returns False when the twins must be re-synchronised."""
     lo = _run_local(sql)
     if not lo["ok"] and lo["exc"]["kind"] == "internal":
+        # an engine-level exception in process (C07's business) is not sent over HTTP (a 5xx makes the connector retry for
+        # seconds); a statement that is not a pure read may have been applied in part, so the twins start afresh
         env.count("skipped_internal_exception")
-        return True
+        return sql.split()[0].upper() in ("SELECT", "SHOW", "DESCRIBE", "DESC", "WITH")
     env.count("http_statements")
     ro = _run_remote(sql)
     if _posts["n"] == 0:
